@@ -8,6 +8,7 @@ Rules compare shapes of code; several spellings of the same behaviour must there
     N10 X = p if c else q  /  return p if c else q  ->  the if-statement it abbreviates
     N12 [e(k) for k in (c0, c1)]  ->  [e(c0), e(c1)]                   (literal tuple / list of constants)
     N13 X = []; for T in IT: X.append(E)  ->  X = [E for T in IT]      (adjacent; also with one `if C:` around the append; T not read elsewhere)
+    N17 for k in (c0, c1) / range(2): BODY  ->  BODY[k := c0]; BODY[k := c1]     (literal constants, at most 2 - the two-axis idiom; no break / continue; k only used inside)
     N16 X = a.b.c; if X is None: X = F  ->  if a.b.c is not None: X = a.b.c else: X = F     (fetch-then-default)
     N15 x = a.b.c; ...x...  ->  ...a.b.c...                             (x a single-assignment alias of a pure attribute chain whose base / prefixes are not reassigned)
     N14 np.zeros(shape=s) -> np.zeros(s); np.full(fill_value=c, shape=s) -> np.full(s, c); positional dtype -> dtype=   (numpy constructors in one spelling)
@@ -71,12 +72,25 @@ def _visit_Call(self, n):
     return n
 
 
+def _literal_items(it):
+    """the constants a literal iterable yields: (c0, c1, ..) / [c0, ..] of at most 6 constants, or range(c) / range(a, b) with small literal bounds; else None"""
+    if isinstance(it, (ast.Tuple, ast.List)) and 1 <= len(it.elts) <= 6 and all(isinstance(c, ast.Constant) for c in it.elts):
+        return list(it.elts)
+    if isinstance(it, ast.Call) and isinstance(it.func, ast.Name) and it.func.id == "range" and not it.keywords and 1 <= len(it.args) <= 2 \
+            and all(isinstance(a, ast.Constant) and isinstance(a.value, int) and not isinstance(a.value, bool) for a in it.args):
+        lo, hi = (0, it.args[0].value) if len(it.args) == 1 else (it.args[0].value, it.args[1].value)
+        if 1 <= hi - lo <= 4:
+            return [ast.Constant(value=k) for k in range(lo, hi)]
+    return None
+
+
 def _unroll_comp(self, n):
     """N12: [e(k) for k in (c0, c1, ...)] over a literal tuple / list of constants is the list [e(c0), e(c1), ...]"""
     self.generic_visit(n)
     if len(n.generators) == 1:
         g = n.generators[0]
-        if not g.ifs and not g.is_async and isinstance(g.target, ast.Name) and isinstance(g.iter, (ast.Tuple, ast.List)) and 1 <= len(g.iter.elts) <= 6 and all(isinstance(c, ast.Constant) for c in g.iter.elts):
+        consts = _literal_items(g.iter)
+        if not g.ifs and not g.is_async and isinstance(g.target, ast.Name) and consts is not None:
             import copy
 
             class S(ast.NodeTransformer):
@@ -85,7 +99,7 @@ def _unroll_comp(self, n):
 
                 def visit_Name(s2, m):
                     return ast.copy_location(ast.Constant(value=s2.c.value), m) if (m.id == g.target.id and isinstance(m.ctx, ast.Load)) else m
-            return ast.copy_location(ast.List(elts=[S(c).visit(copy.deepcopy(n.elt)) for c in g.iter.elts], ctx=ast.Load()), n)
+            return ast.copy_location(ast.List(elts=[S(c).visit(copy.deepcopy(n.elt)) for c in consts], ctx=ast.Load()), n)
     return n
 
 
@@ -224,6 +238,9 @@ class _Passthrough:
     def _fetch_default(self, st, nxt):
         return None
 
+    def _unroll_loop(self, st):
+        return None
+
     def block_done(self, stmts):
         return _Stmts.block(self, stmts)
 
@@ -263,6 +280,11 @@ class _Stmts:
         i = 0
         while i < len(body):
             st = body[i]
+            # N17: for k in (c0, c1) / range(2): BODY  ->  BODY[k := c0]; BODY[k := c1]      (literal constants; k not assigned in BODY, no break / continue, k not read after)
+            unrolled = self._unroll_loop(st)
+            if unrolled is not None:
+                body = body[:i] + unrolled + body[i + 1:]
+                st = body[i]
             # N16: X = a.b.c; if X is None: X = F   ->   if a.b.c is not None: X = a.b.c  else: X = F      (fetch-then-default; a.b.c a pure attribute chain)
             dflt = self._fetch_default(st, body[i + 1] if i + 1 < len(body) else None)
             if dflt is not None:
@@ -331,6 +353,35 @@ class _Stmts:
                     new_if = ast.copy_location(ast.If(test=st.test.operand, body=tail, orelse=[]), st)
                     return out[:k] + [new_if] + st.body
             i += 1
+        return out
+
+    def _unroll_loop(self, st):
+        import copy
+        if not (isinstance(st, ast.For) and not st.orelse and isinstance(st.target, ast.Name) and self.func is not None):
+            return None
+        consts = _literal_items(st.iter)
+        if consts is None or len(consts) > 2:   # the two-axis idiom; longer literal loops stay loops
+            return None
+        k = st.target.id
+        if any(isinstance(n, (ast.Break, ast.Continue)) for b in st.body for n in ast.walk(b)):
+            return None
+        if any(isinstance(n, ast.Name) and n.id == k and isinstance(n.ctx, (ast.Store, ast.Del)) for b in st.body for n in ast.walk(b)):
+            return None
+        inside = {id(n) for n in ast.walk(st)}
+        if any(isinstance(n, ast.Name) and n.id == k and id(n) not in inside for n in ast.walk(self.func)):
+            return None
+        if sum(1 for b in st.body for _ in ast.walk(b)) > 400:
+            return None
+
+        class S(ast.NodeTransformer):
+            def __init__(s2, c):
+                s2.c = c
+
+            def visit_Name(s2, m):
+                return ast.copy_location(ast.Constant(value=s2.c.value), m) if (m.id == k and isinstance(m.ctx, ast.Load)) else m
+        out = []
+        for c in consts:
+            out.extend(S(c).visit(copy.deepcopy(b)) for b in st.body)
         return out
 
     def _fetch_default(self, st, nxt):
